@@ -59,7 +59,7 @@ PROPS = {
         "assumptions": COMMON_ASSUME,
     },
     "C05": {
-        "rules": ["R-DEDUP", "R-DUPSKIP", "R-SAMPLECOUNT", "R-STUB", "R-ALPHAGUARD", "R-PURE-SUBSTR", "R-EXTENT-FM", "R-STALESIZE", "R-SCANLEN"],
+        "rules": ["R-CUMSUM", "R-DEDUP", "R-DUPSKIP", "R-SAMPLECOUNT", "R-STUB", "R-ALPHAGUARD", "R-PURE-SUBSTR", "R-EXTENT-FM", "R-STALESIZE", "R-SCANLEN"],
         "explanation": "Only the de-duplication protocol and the configuration guard are decided: the occurrence array is sorted over exactly [a,a+n) "
                        "and carries the 0 sentinel at a[n] before a duplicate-skipping iterator is created, is allocated with n+1 entries, and the "
                        "BWTsampling==0 configuration is an effect-free stub. "
@@ -74,7 +74,7 @@ PROPS = {
         "assumptions": COMMON_ASSUME,
     },
     "C01": {
-        "rules": ["R-STATE", "R-INITCOVER", "R-MIRROR", "R-IDGUARD", "R-SELECTRANGE", "R-PROBE", "R-BUCKET", "R-FMMAP", "R-BYTEORDER", "R-PURE-BASIC", "R-SLOT", "R-CLAMP", "R-CMPSIGN", "R-BSEARCH", "R-SCANSIGN", "R-CHUNKINIT", "R-SCANLEN", "R-RESAVE-SCALAR", "R-VBYTE"],
+        "rules": ["R-STATE", "R-DERIVED", "R-INITCOVER", "R-MIRROR", "R-IDGUARD", "R-SELECTRANGE", "R-PROBE", "R-BUCKET", "R-FMMAP", "R-BYTEORDER", "R-PURE-BASIC", "R-SLOT", "R-CLAMP", "R-CMPSIGN", "R-BSEARCH", "R-SCANSIGN", "R-CHUNKINIT", "R-SCANLEN", "R-RESAVE-SCALAR", "R-VBYTE"],
         "explanation": "The clause `for the freshly built object and the reloaded one alike` is decided structurally: for every kind and both "
                        "creation paths, every field read by a query on an object of a class that path instantiates (rapid type analysis, virtual "
                        "calls resolved to final overriders of instantiated classes) is assigned by code reachable from that creation path, pointer "
@@ -99,7 +99,7 @@ PROPS = {
         "assumptions": COMMON_ASSUME,
     },
     "C07": {
-        "rules": ["R-STATE", "R-INITCOVER", "R-EXTENT", "R-KILLUSE", "R-DANGLING", "R-ALPHAGUARD", "R-DEDUP", "R-IDGUARD", "R-SHIFT", "R-CLAMP", "R-ZEROFILL", "R-GROW", "R-SLACK", "R-ALLOCFORM", "R-LOCKSET", "R-BYTEINDEX", "R-REFCOUNT", "R-COUNTERWIDTH", "R-BUCKET", "R-PREDINDEX"],
+        "rules": ["R-STATE", "R-DERIVED", "R-INITCOVER", "R-EXTENT", "R-KILLUSE", "R-DANGLING", "R-ALPHAGUARD", "R-DEDUP", "R-IDGUARD", "R-SHIFT", "R-CLAMP", "R-ZEROFILL", "R-GROW", "R-SLACK", "R-ALLOCFORM", "R-LOCKSET", "R-BYTEINDEX", "R-REFCOUNT", "R-COUNTERWIDTH", "R-BUCKET", "R-PREDINDEX"],
         "explanation": "Structural preconditions of memory safety, each a necessary condition with confirmed instances: no operation consults state the "
                        "creation path never set, saved extents equal allocated extents, nothing reachable from a dictionary is freed by an operation or "
                        "left dangling by a loader, pattern bytes are range-checked before indexing, duplicate iterators have their sentinel, ids are "
@@ -142,7 +142,7 @@ PROPS = {
         "assumptions": COMMON_ASSUME,
     },
     "C17": {
-        "rules": ["R-SHIFT", "R-SETFIELD", "R-VBYTE", "R-MIRROR", "R-EXTENT", "R-ZEROFILL", "R-NARROW", "R-COUNTERWIDTH"],
+        "rules": ["R-DERIVED-CODEC", "R-SHIFT", "R-SETFIELD", "R-VBYTE", "R-MIRROR", "R-EXTENT", "R-ZEROFILL", "R-NARROW", "R-COUNTERWIDTH"],
         "explanation": "For the packed integer array the shift amounts of get_field/set_field/maxVal are evaluated from the source expressions over the whole "
                        "finite domain (width 1..64 x in-word offset 0..63) under the guards that dominate each shift: exact. Save/load agreement and "
                        "allocation extents for LogSequence, DAC_VLS, DAC_BVLS; zero-fill before read-modify-write packing.",
@@ -154,7 +154,7 @@ PROPS = {
         "assumptions": COMMON_ASSUME,
     },
     "C03": {
-        "rules": ["R-BUCKET", "R-FMMAP", "R-NOSORT", "R-BYTEORDER", "R-PURE-RANK", "R-CLAMP", "R-CMPSIGN", "R-BSEARCH", "R-SCANSIGN", "R-CMPEND", "R-SCANLEN", "R-RESAVE-SCALAR", "R-VBYTE"],
+        "rules": ["R-DERIVED-ORDER", "R-BUCKET", "R-FMMAP", "R-NOSORT", "R-BYTEORDER", "R-PURE-RANK", "R-CLAMP", "R-CMPSIGN", "R-BSEARCH", "R-SCANSIGN", "R-CMPEND", "R-SCANLEN", "R-RESAVE-SCALAR", "R-VBYTE"],
         "explanation": "Order preservation decided structurally: rank operations are the identity / delegate to extract in the seven order-preserving "
                        "kinds, ID arithmetic is consistent with consuming the input in order, FM-index row mapping agrees, and no builder of an "
                        "order-preserving kind reorders its input (no sort reachable on their build paths). "
@@ -173,7 +173,7 @@ PROPS = {
         "assumptions": COMMON_ASSUME,
     },
     "C19": {
-        "rules": ["R-MIRROR", "R-EXTENT", "R-DISPATCH", "R-SAVEPURE", "R-CONSTPURE", "R-NARROW", "R-REFCOUNT"],
+        "rules": ["R-DERIVED-CDS", "R-CUMSUM", "R-MIRROR", "R-EXTENT", "R-DISPATCH", "R-SAVEPURE", "R-CONSTPURE", "R-NARROW", "R-REFCOUNT"],
         "explanation": "ONLY the last clause of the property (`the answers are unchanged after save/load`) is addressed, and only structurally: "
                        "writer/reader agreement, allocation extents, tag dispatch, save purity and element-to-field restoration for the bundled classes "
                        "the dictionaries persist and for the variants named in the property (BitSequenceRG/RRR/SDArray/DArray/375, WaveletTree, "
@@ -190,7 +190,7 @@ PROPS = {
         "assumptions": COMMON_ASSUME,
     },
     "C20": {
-        "rules": ["R-RPZERO", "R-RPWIDTH", "R-RPGAP", "R-MIRROR", "R-NARROW", "R-BACKPTR"],
+        "rules": ["R-DERIVED-RP", "R-RPZERO", "R-RPWIDTH", "R-RPGAP", "R-MIRROR", "R-NARROW", "R-BACKPTR"],
         "explanation": "Structural conditions of the Re-Pair contract: who may raise a pair frequency and under which guard (terminator exclusion), "
                        "purge-before-extract on every path, identifier width computed as bits(rules+terminals) at every sizing site, and agreement of the "
                        "gap-pointer encoding between the compressor (writer) and the five compaction loops (readers). The grammar's image is covered by R-MIRROR. "
@@ -220,7 +220,7 @@ PROPS = {
         "assumptions": COMMON_ASSUME,
     },
     "C06": {
-        "rules": ["R-MIRROR", "R-EXTENT", "R-TAGS", "R-DISPATCH", "R-PADDING", "R-STATE", "R-SELECTRANGE", "R-NARROW", "R-PROBE", "R-RESAVE-SCALAR"],
+        "rules": ["R-MIRROR", "R-EXTENT", "R-TAGS", "R-DISPATCH", "R-PADDING", "R-STATE", "R-DERIVED", "R-SELECTRANGE", "R-NARROW", "R-PROBE", "R-RESAVE-SCALAR"],
         "explanation": "Writer/reader agreement decided statically for every save/load pair in the cone of classes the 13 kinds persist "
                        "(rapid type analysis from their constructors) plus libcds classes named in C19: both halves are abstracted to "
                        "ordered trees of stream elements whose sizes are symbolic expressions over earlier image values, and compared "
